@@ -23,7 +23,9 @@ RULE = ('random data sets (1-3 categorical covariates, <= 8 strata, positivity b
         'x {saturated, main-effects} models, plus a stabilized effect-modifier MSM (normal outcome); StochasticIPTW marginal/conditional plans; TimeFixedGFormula standardize x '
         "treatment ('all','none',custom) x predict_missing x outcome type; SurvivalGFormula all/none/natural/custom; "
         'AIPTW x missing handling; GEstimationSNM (1- and 2-parameter SNM, closed solver) x missing handling; '
-        'GTransportFormula generalize/transport x outcome type.  distinct = (data seed, estimator, options); '
+        'GTransportFormula generalize/transport x outcome type; two thirds of the cells run on an object with a '
+        'history (an earlier fit() with the same or another marginal structural model / plan, then the fit that is '
+        'compared), one third on a fresh object.  distinct = (data seed, estimator, options); '
         'non-trivial = weights are not constant and the weighted closed-form standardized mean differs from the one '
         'ignoring the weights (so dropping or misplacing a weight changes the answer)')
 ASSUMPTIONS = ['statsmodels GLM with freq_weights and the unweighted GLM on the replicated rows have the same score '
@@ -109,10 +111,19 @@ def specs(covs, spec):
     return main, 'A + ' + main
 
 
+def positions(df, labels):
+    """positions, in the caller's frame, of the rows the estimator retained (the `index` column that
+    check_input_data's reset_index() leaves behind holds the caller's labels, whatever the index looks like)"""
+    pos = df.index.get_indexer(pd.Index(list(labels)))
+    if (pos < 0).any() or len(set(pos.tolist())) != len(pos):
+        raise ValueError('retained rows carry labels that are not (distinct) labels of the input frame')
+    return pos
+
+
 def full(n, pos, arr):
-    """array aligned with the input row labels (labels are positions unless the caller deleted rows first)"""
+    """array aligned with the rows of the input frame (NaN where the estimator did not retain the row)"""
     pos = np.asarray(pos, dtype=int)
-    out = np.full(max(n, int(pos.max()) + 1 if len(pos) else n), np.nan)
+    out = np.full(n, np.nan)
     out[np.asarray(pos, dtype=int)] = np.asarray(arr, dtype=float)
     return out
 
@@ -129,9 +140,18 @@ def est_iptw(df, covs, wcol, o):
                         print_results=False)
     if o['miss'] == 'mm':
         ipt.missing_model(om, stabilized=o['stab'], print_results=False)
-    ipt.marginal_structural_model('A + C(%s)' % covs[0] if mod else 'A')
     yt = o['ytype']
-    ipt.fit(continuous_distribution='poisson' if yt == 'poisson' else 'gaussian')
+    dist = 'poisson' if yt == 'poisson' else 'gaussian'
+    final = 'A + C(%s)' % covs[0] if mod else 'A'
+    # history on the same object (documented workflows): fit twice / fit one MSM, respecify another, fit again
+    if o.get('hist') == 'twice':
+        ipt.marginal_structural_model(final)
+        ipt.fit(continuous_distribution=dist)
+    elif o.get('hist') == 'respec':
+        ipt.marginal_structural_model('A' if (mod or yt == 'binary') else 'A + C(%s)' % covs[0])
+        ipt.fit(continuous_distribution=dist)
+    ipt.marginal_structural_model(final)
+    ipt.fit(continuous_distribution=dist)
     if mod:
         est = {'b_' + str(k): v for k, v in ipt.average_treatment_effect['ATE'].items()}
     elif yt == 'binary':
@@ -143,11 +163,12 @@ def est_iptw(df, covs, wcol, o):
     else:
         est = {'ratio': np.exp(ipt.average_treatment_effect.loc['A', 'ATE']),
                'm0': np.exp(ipt.average_treatment_effect.loc['Intercept', 'ATE'])}
-    n, pos = len(df), ipt.df['index'].values
+    n, pos = len(df), positions(df, ipt.df['index'])
     d = np.asarray(ipt.df['__denom__'], dtype=float)
     nu = {'d': full(n, pos, d),
           'n': full(n, pos, np.broadcast_to(np.asarray(ipt.df['__numer__'], dtype=float), d.shape)),
-          'mw': full(n, pos, np.ones(len(d)) if ipt.ipmw is None else ipt.ipmw)}
+          'mw': full(n, pos, np.ones(len(d)) if ipt.ipmw is None else ipt.ipmw),
+          'iptw': full(n, pos, np.asarray(ipt.iptw, dtype=float))}       # the public treatment weights, after the fits
     return {k: float(v) for k, v in est.items()}, nu, None
 
 
@@ -157,13 +178,15 @@ def est_stoch(df, covs, wcol, o):
     tm, _ = specs(covs, o['spec'])
     s = StochasticIPTW(df[cols], treatment='A', outcome='Y', weights=wcol)
     s.treatment_model(tm, print_results=False)
+    if o.get('hist'):
+        s.fit(p=0.45)
     if o['plan'] == 'marginal':
         s.fit(p=o['p'][0])
         pr = np.full(len(s.df), o['p'][0])
     else:
         s.fit(p=o['p'], conditional=["df['L1']==0", "df['L1']>0"])
         pr = np.where(s.df['L1'].values == 0, o['p'][0], o['p'][1])
-    n, pos = len(df), s.df['index'].values
+    n, pos = len(df), positions(df, s.df['index'])
     pd_ = np.asarray(s._pdenom_, dtype=float)
     a = s.df['A'].values
     omega = np.where(a == 1, pr, 1 - pr) / np.where(a == 1, pd_, 1 - pd_)
@@ -177,8 +200,10 @@ def est_gformula(df, covs, wcol, o):
     g = TimeFixedGFormula(df[cols], exposure='A', outcome='Y', outcome_type=o['ytype'], standardize=o['tgt'],
                           weights=wcol)
     g.outcome_model(om, print_results=False)
+    if o.get('hist'):     # the documented use: one object, several plans in a row
+        g.fit('none' if o['treatment'] == 'all' else 'all', predict_missing=not o['pm'])
     g.fit(o['treatment'], predict_missing=o['pm'])
-    n, pos = len(df), g.gf['index'].values
+    n, pos = len(df), positions(df, g.gf['index'])
     # predictions under the plan for every retained row (predict_missing=False blanks some in predicted_df)
     gp = g.gf.copy()
     gp['A'] = 1 if o['treatment'] == 'all' else 0 if o['treatment'] == 'none' else \
@@ -198,9 +223,11 @@ def est_aiptw(df, covs, wcol, o):
         a.missing_model(om, print_results=False)
     yt = o['ytype']
     a.outcome_model(om, continuous_distribution='poisson' if yt == 'poisson' else 'gaussian', print_results=False)
+    if o.get('hist'):
+        a.fit()
     a.fit()
     est = {'RD': a.risk_difference, 'RR': a.risk_ratio} if yt == 'binary' else {'ATE': a.average_treatment_effect}
-    n, pos = len(df), a.df['index'].values
+    n, pos = len(df), positions(df, a.df['index'])
     g1, g0 = np.asarray(a.df['_g1_'], dtype=float), np.asarray(a.df['_g0_'], dtype=float)
     nu = {'q1': full(n, pos, a.df['_pY1_']), 'q0': full(n, pos, a.df['_pY0_']), 'g1': full(n, pos, g1),
           'g0': full(n, pos, g0)}
@@ -219,8 +246,10 @@ def est_snm(df, covs, wcol, o):
     s.structural_nested_model(o['snm'])
     if o['miss'] == 'mm':
         s.missing_model(om, stabilized=o['stab'], print_results=False)
+    if o.get('hist'):
+        s.fit(solver='closed')
     s.fit(solver='closed')
-    n, pos = len(df), s.df['index'].values
+    n, pos = len(df), positions(df, s.df['index'])
     ipmw = np.ones(len(s.df)) if s.ipmw is None else np.asarray(s.ipmw, dtype=float)
     # reference treatment fit with the documented arguments: observed-outcome rows, freq_weights = ipmw x user weight
     d = s.df.copy()
@@ -241,6 +270,8 @@ def est_gtransport(df, covs, wcol, o):
     e = GTransportFormula(df[cols], exposure='A', outcome='Y', selection='S', outcome_type=o['ytype'],
                           generalize=o['gen'], weights=wcol)
     e.outcome_model(om, print_results=False)
+    if o.get('hist'):
+        e.fit()
     e.fit()
     d1, d0 = df.copy(), df.copy()
     d1['A'], d0['A'] = 1, 0
@@ -254,6 +285,8 @@ def est_survival(df, wcol, o):
     cols = ['id', 't', 'L1', 'L2', 'A', 'Y'] + ([wcol] if wcol else [])
     s = SurvivalGFormula(df[cols], idvar='id', exposure='A', outcome='Y', time='t', weights=wcol)
     s.outcome_model(o['model'], print_results=False)
+    if o.get('hist'):
+        s.fit('none' if o['treatment'] == 'all' else 'all')
     s.fit(o['treatment'])
     g = s.gf.copy()
     if o['treatment'] == 'all':
@@ -371,6 +404,18 @@ def href(df, covs, rep, first):
 
 
 def compare(chk, drv, which, o, df, covs, rep, first, case):
+    """never lets an exception out: whatever zEpid raises on a generated (valid) data set, or hands back in a form the
+    check cannot digest, is a property failure with the case attached"""
+    try:
+        _compare(chk, drv, which, o, df, covs, rep, first, case)
+    except Exception as ex:       # noqa: BLE001
+        import traceback
+        chk.d(False, '%s: weighted or replicated run raised / returned something the check could not digest' % which,
+              dict(case, error=repr(ex)[:300],
+                   traceback=''.join(traceback.format_exception(type(ex), ex, ex.__traceback__))[-1500:]))
+
+
+def _compare(chk, drv, which, o, df, covs, rep, first, case):
     run = RUNNERS[which]
     ew, nw, aux = run(df, covs, 'w', o)
     er, nr, _ = run(rep, covs, None, o)
@@ -429,6 +474,12 @@ def cells(which, ytype, missing, covs, rng, tier):
     elif which == 'GTransportFormula':
         for g in (True, False):
             out.append(dict(gen=g, spec=spec(), ytype=ytype))
+    # history on the one object (the documented workflows: several plans / marginal structural models in a row, a
+    # second fit()): a third of the cells fit a fresh object, the others refit after an earlier fit
+    for o in out:
+        h = [None, 'twice', 'respec'][int(rng.integers(0, 3))]
+        if h:
+            o['hist'] = h
     return out
 
 
@@ -450,12 +501,13 @@ def one_dataset(chk, drv, rng, ytype, missing, tier, which_list):
             Fraction(r['w_%s%d' % (t, a)]) == cfw[(t, a)] for t in ('population', 'exposed', 'unexposed') for a in (0, 1))
         chk.k(ok, 'Lean std on weighted == on replicated rows (exact) == independent closed form', {'data': rec})
     for which in which_list:
-        for o in cells(which, ytype, missing, covs, rng, tier):
+        # (the missing-outcome cells only when the draw left at least one outcome missing)
+        for o in cells(which, ytype, missing if df['Y'].isna().any() else None, covs, rng, tier):
             case = {'estimator': which, 'options': o, 'data': rec}
             key = (seed, which, tuple(sorted((k, str(v)) for k, v in o.items())))
             chk.case(case, key if nontriv else None, sample=case if chk.evals % 41 == 0 else None)
             chk.count('%s/%s/%s' % (which, ytype, '/'.join('%s=%s' % (k, v) for k, v in sorted(o.items())
-                                                             if k in ('stab', 'tgt', 'miss', 'pm', 'plan', 'snm', 'gen', 'msm'))))
+                                                             if k in ('stab', 'tgt', 'miss', 'pm', 'plan', 'snm', 'gen', 'msm', 'hist'))))
             compare(chk, drv, which, o, df, covs, rep, first, case)
 
 
@@ -465,7 +517,7 @@ def one_transport(chk, drv, rng, ytype, missing, tier):
     rep, first = replicate(df)
     rec = {'n': int(len(df)), 'n_replicated': int(len(rep)), 'outcome': ytype, 'missing': missing, 'data_seed': seed,
            'kind': 'transport', 'strata': int(len(set(gen.strata_ids(df, covs).tolist())))}
-    for o in cells('GTransportFormula', ytype, missing, covs, rng, tier):
+    for o in cells('GTransportFormula', ytype, missing if df['Y'].isna().any() else None, covs, rng, tier):
         case = {'estimator': 'GTransportFormula', 'options': o, 'data': rec}
         chk.case(case, (seed, 'GT', o['gen'], o['spec']) if df['w'].nunique() > 1 else None)
         chk.count('GTransportFormula/%s/gen=%s%s' % (ytype, o['gen'], '/miss' if missing else ''))
@@ -481,14 +533,20 @@ def one_survival(chk, drv, rng, tier, o=None, seed=None):
     rep = replicate_persons(df, np.random.default_rng(seed + 1))
     rec = {'persons': int(df['id'].nunique()), 'rows': int(len(df)), 'rows_replicated': int(len(rep)),
            'data_seed': seed, 'kind': 'survival'}
-    opts = [o] if o is not None else [dict(treatment=t, model=str(rng.choice(SURV_MODELS)))
+    opts = [o] if o is not None else [dict(treatment=t, model=str(rng.choice(SURV_MODELS)),
+                                           **({'hist': 'refit'} if rng.integers(0, 2) else {}))
                                       for t in ('all', 'none', 'natural', "g['L1']==1")]
     for o in opts:
         case = {'estimator': 'SurvivalGFormula', 'options': o, 'data': rec}
         chk.case(case, (seed, 'SGF', o['treatment'], o['model']))
-        chk.count('SurvivalGFormula/%s' % o['treatment'])
-        ew, nw, gf = est_survival(df, 'w', o)
-        er, _, _ = est_survival(rep, None, o)
+        chk.count('SurvivalGFormula/%s%s' % (o['treatment'], '/refit' if o.get('hist') else ''))
+        try:
+            ew, nw, gf = est_survival(df, 'w', o)
+            er, _, _ = est_survival(rep, None, o)
+        except Exception as ex:       # noqa: BLE001
+            chk.d(False, 'SurvivalGFormula: weighted or replicated run raised on a valid data set',
+                  dict(case, error=repr(ex)[:300]))
+            continue
         case['weighted'], case['replicated'] = ew, er
         chk.d(set(ew) == set(er) and all(close(ew[k], er[k], **DTOL) for k in ew),
               'SurvivalGFormula: person weights vs replicated persons give the same cumulative incidence', case)
